@@ -309,13 +309,33 @@ def gen_del(rng, n):
     return cases
 
 
+def bypass_net(rng):
+    """A main route and a low-capacity bypass: knocking the main route out leaves a growth that is positive but
+    far below the wild type (between an explicit threshold of 0 and the default 1 % rule)."""
+    small = rng.choice(["1/2", "1", "5"])
+    big = rng.choice(["1000", "1000", "600"])
+    def rx(i, st, lb, ub, obj="0", gpr=""):
+        return {"id": i, "st": st, "lb": lb, "ub": ub, "obj": obj, "gpr": gpr}
+    rxns = [rx("EX_0", {"M0_e": "-1"}, "-" + big, "0"),
+            rx("R1", {"M0_e": "-1", "M1_c": "1"}, "0", big, gpr="g0"),
+            rx("R2", {"M0_e": "-1", "M1_c": "1"}, "0", small, gpr="g1"),
+            rx("R3", {"M1_c": "-1"}, "0", "1000", obj="1", gpr="g0 or g2")]
+    if rng.random() < 0.5:
+        rxns.append(rx("R4", {"M1_c": "-1", "M2_c": "1"}, "0", "10"))
+        rxns.append(rx("DM_5", {"M2_c": "-1"}, "0", "10"))
+    rng.shuffle(rxns)
+    return {"mets": ["M0_e", "M1_c", "M2_c"], "rxns": rxns, "dir": "max", "genes": ["g0", "g1", "g2"]}
+
+
 def gen_ess(rng, n):
     cases = []
     for k in range(n):
         net = gennet.gen_network(rng, finite_only=(k % 4 != 0), genes=True, max_rxns=8)
         net["dir"] = "max" if k % 6 else net["dir"]
+        if k % 5 == 3:
+            net = bypass_net(rng)
         cases.append({"kind": "ess", "net": net, "entity": "gene" if k % 2 else "reaction",
-                      "threshold": None if k % 3 else rng.choice(["1/2", "1", "5", "0", "1/1024"]),
+                      "threshold": None if k % 3 == 2 else rng.choice(["1/2", "1", "5", "0", "0", "0", "1/1024"]),
                       "processes": 2 if k % 7 == 1 else 1})
     return cases
 
@@ -324,7 +344,7 @@ def gen_cases(rng, tier):
     quick = tier == "quick"
     only = os.environ.get("C06_ONLY")
     out = []
-    for kind, gen, n in (("del", gen_del, 150 if quick else 2500), ("ess", gen_ess, 60 if quick else 800)):
+    for kind, gen, n in (("del", gen_del, 150 if quick else 2500), ("ess", gen_ess, 90 if quick else 1200)):
         cs = gen(rng, n)
         if only in (None, "", kind):
             out += cs
